@@ -3,6 +3,7 @@
 # Copyright (c) Jupyter Development Team.
 # Distributed under the terms of the Modified BSD License.
 
+import math
 import operator
 import difflib
 
@@ -30,6 +31,9 @@ def compare_strict(x, y):
         # NaN (which Python's json and nbformat read and write) is the one
         # value that is not equal to itself
         return True
+    if isinstance(x, float) and isinstance(y, float) and x == y == 0:
+        # 0.0 == -0.0, but they are written differently
+        return math.copysign(1.0, x) == math.copysign(1.0, y)
     return x == y and _json_number_type(x) is _json_number_type(y)
 
 
